@@ -384,6 +384,12 @@ func RunEnumWorker(p Params) *Summary {
 			for _, n := range []int{1, 2, 3, 4, 5, 6, 7, 8, 13, 25, 26, 27, 28, 29, 64} {
 				run := strings.Repeat(b, n)
 				bad = append(bad, `{"`+run+`":1}`, `{"k":"ab`+run+`"}`, `["`+run+`x"]`)
+				if n <= 13 {
+					// a well-formed multi-byte rune right after the run (2, 3 and 4 bytes), with 0-2 bytes to follow
+					for _, tail := range []string{"\u00e9", "\u20ac", "\U0001F600", "\U0001F600a", "\U0001F600ab", "\u20acz"} {
+						bad = append(bad, `{"k":"`+run+tail+`"}`)
+					}
+				}
 			}
 		}
 		for _, target := range targets {
@@ -462,7 +468,7 @@ func RunEnumWorker(p Params) *Summary {
 			"single-byte substitution from {}[],:\"\\0-n NUL 0xFF at every offset of the same texts x every entry point x {v5, legacy}",
 			fmt.Sprintf("every ordered pair of %d small values x two-argument functions and DecodePatch/Apply x {v5, legacy}", len(smallValues)),
 			"10 operation templates x every small value x 6 documents x {v5, legacy}",
-			"24 extreme or oddly spelled array indices x 8 operation shapes x 2 documents x negative indices on/off x {v5, legacy}; 225 texts with runs of 1-64 malformed UTF-8 sequences in names and strings x every entry point",
+			"24 extreme or oddly spelled array indices x 8 operation shapes x 2 documents x negative indices on/off x {v5, legacy}; ~500 texts with runs of 1-64 malformed UTF-8 sequences (some followed by a 2-, 3- or 4-byte rune) in names and strings x every entry point",
 			"near-limit nesting: documents nested 9000 deep (arrays, objects) x two copies of the deep subtree into positions at depth {1500,20} x {1200,10} x {no, add, test, remove, copy, move} as a third operation through the result x {v5, legacy}",
 			map[bool]string{true: "pointer algebra, three operations: every ordered pair followed by each of every 7th operation as a third (thorough tier)", false: "pointer algebra with a third operation: thorough tier only"}[p.Tier == "thorough"],
 			fmt.Sprintf("pointer algebra: every ordered pair of %d single operations (add/remove/replace/test/move/copy with path and from drawn from %d pointers around the empty reference token) x %d documents x {v5, legacy}", len(ops), len(algebraPointers), len(algebraDocs)),
